@@ -35,6 +35,15 @@ def expr_text(toks):
 def case_strategy(draw, styles):
     n = draw(st.integers(2, 7))
     names = draw(gen.distinct_names(n, styles=styles))
+    if draw(st.integers(0, 4)) == 0:
+        # two columns whose names differ only by letter case and quoting (id and "ID" are different columns in PostgreSQL / Oracle)
+        i, j = draw(st.integers(0, n - 1)), draw(st.integers(0, n - 1))
+        base = names[i]
+        if i != j and base[:1].isalpha() and base.isidentifier():
+            twin = '"%s"' % (base.upper() if base.upper() != base else base.lower())
+            if twin not in names and twin.strip('"') != base:
+                names = list(names)
+                names[j] = twin
     cols = []
     for nm in names:
         t, size = draw(gen.type_and_size(allow_random_word=False))
@@ -184,6 +193,9 @@ class C02(Prop):
         for it in case["titems"]:
             out.label("titem:%s:%s" % (it["kind"], "named" if it["name"] else "unnamed"), "pos:%s" % ("end" if it["pos"] >= len(names) else "middle"))
         out.label("titems=%d" % len(case["titems"]))
+        low = [c["name"].strip('"`[]').lower() for c in case["cols"]]
+        if len(set(low)) < len(low):
+            out.label("columns-differing-by-case-and-quotes-only")
         r = loader.try_parse(ddl)
         out.parses += 1
         if r[0] != "ok":
